@@ -401,7 +401,8 @@ def run(rep):
     rep.add('R12b', label(sz), 'size-is-data-size', ok, sz.loc, 'size() = data_.size()' if ok else 'size() is not data_.size()')
 
     rep.rule('R12c', 'remove(): every path deletes exactly one element; data_ and the leaf row shrink by one together (or '
-                     'both are cleared); the sibling short-cut is taken exactly for index+2 == size and even index; the '
+                     'both are cleared); the sibling short-cut (recognised by its role) is taken only when the removed slot and the last slot share a parent, decided by '
+                     'evaluating the guard on every index < size - 1 <= 40; the '
                      'non-sibling path propagates (moved weight - removed weight) along index>>1; clear() deletes all')
     cl = ShrinkClient()
     paths.run_function(rem, cl, F)
@@ -420,46 +421,75 @@ def run(rep):
         for d in ds.get('decls', []):
             if d.get('init') and 'index_' in rem.fp(d['init']):
                 indexk = '%s#%d' % (d['name'], d['did'])
+    # The site is recognised by its *role*, not by the spelling of its guard: inside the branch that moved the last element into the hole
+    # (the else of "index + 1 == size"), the if whose then-branch takes the leaf weight of the last slot and whose else-branch
+    # propagates a weight change upwards.  The guard itself is then decided by evaluating it on every (index, size) with
+    # 0 <= index < size - 1 <= 40 against "index and size - 1 have the same parent" (index >> 1 == (size - 1) >> 1).
     sib = None
-    for i in [n for n in rem.walk() if n['k'] == 'IfStmt']:
-        cj2 = conjuncts(rem, i['cond'], [])
-        if len(cj2) == 2 and any('%' in rem.fp(c) or '&' in rem.fp(c) for c in cj2):
-            sib = (i, cj2)
-    if sib is None and indexk:
-        # the short-cut is recognised by its size test alone, so that a guard that lost its parity conjunct is reported, not skipped
-        for i in [n for n in rem.walk() if n['k'] == 'IfStmt']:
-            cj2 = conjuncts(rem, i['cond'], [])
-            fs_ = [lin.cmp_le0(rem, c) for c in cj2]
-            if any(f_ in (('eq0', lin.canon({indexk: 1, 1: 2, 'std::vector::size(this.data_)': -1})),
-                          ('eq0', lin.canon({indexk: -1, 1: -2, 'std::vector::size(this.data_)': 1}))) for f_ in fs_ if f_):
-                sib = (i, cj2)
-    ok = False
-    why = 'sibling short-cut not recognised'
-    if sib and indexk:
-        f1 = [lin.cmp_le0(rem, c) for c in sib[1]]
-        want_eq = ('eq0', lin.canon({indexk: 1, 1: 2, 'std::vector::size(this.data_)': -1}))
-        alt = ('eq0', lin.canon({indexk: -1, 1: -2, 'std::vector::size(this.data_)': 1}))
-        has_eq = any(f in (want_eq, alt) for f in f1 if f)
-        par = [c for c in sib[1] if '%' in rem.fp(c)]
-        has_par = False
-        if par:
-            n = rem.strip(par[0])
-            if n is not None and n['k'] == 'BinaryOperator' and n.get('op') in ('==', '!='):
-                m = rem.strip(n['ch'][0])
-                if m is not None and m['k'] == 'BinaryOperator' and m.get('op') == '%' and key(rem, m['ch'][0]) == indexk and \
-                        lin.lin(rem, m['ch'][1]) == {1: 2}:
-                    v = lin.lin(rem, n['ch'][1])
-                    has_par = (n['op'] == '==' and v == {1: 0}) or (n['op'] == '!=' and v == {1: 1})
-        if not has_eq:
-            why = 'sibling short-cut is not taken for index + 2 == size'
-        elif not has_par:
-            why = 'sibling short-cut does not require an even index (left sibling)'
-        else:
-            ok = True
-    elif sib is None:
+    for i in [n for n in rem.walk() if n['k'] == 'IfStmt' and n.get('else')]:
+        if not any(a['k'] == 'IfStmt' and a.get('else') and any(z['id'] == i['id'] for z in rem.walk(a['else'])) for a in rem.ancestors(i['id'])):
+            continue
+        takes_leaf = any(x['k'] == 'BinaryOperator' and x.get('op') == '=' and 'back' in rem.fp(x['ch'][1]) for x in rem.walk(i['then']))
+        propagates = any(x['k'] == 'ForStmt' for x in rem.walk(i['else']))
+        if takes_leaf and propagates:
+            sib = i
+    if sib is None or indexk is None:
         raise AnalysisBroken('R12c: sibling special case of PDF::remove not recognised')
-    rep.add('R12c', label(rem), 'sibling-guard', ok, rem.where(sib[0]) if sib else rem.loc,
-            'index + 2 == size and index even' if ok else why)
+
+    def ev(nid, env):
+        n = rem.strip(nid)
+        if n is None:
+            raise AnalysisBroken('R12c: empty expression in the sibling guard')
+        k = n['k']
+        if k == 'IntegerLiteral':
+            return int(n.get('v'))
+        if k == 'CXXBoolLiteralExpr':
+            return 1 if n.get('v') in (True, 'true', 1) else 0
+        if k == 'DeclRefExpr' and key(rem, n['id']) == indexk:
+            return env['index']
+        if (n.get('callee') or '') == 'std::vector::size' and 'data_' in rem.fp(n['id']):
+            return env['size']
+        if k == 'UnaryOperator' and n.get('op') in ('!', '-', '~', '+'):
+            v = ev(n['ch'][0], env)
+            return {'!': int(not v), '-': -v, '~': ~v, '+': v}[n['op']]
+        if k == 'BinaryOperator':
+            op = n.get('op')
+            if op == '&&':
+                return int(bool(ev(n['ch'][0], env)) and bool(ev(n['ch'][1], env)))
+            if op == '||':
+                return int(bool(ev(n['ch'][0], env)) or bool(ev(n['ch'][1], env)))
+            a, b = ev(n['ch'][0], env), ev(n['ch'][1], env)
+            if op in ('/', '%') and b == 0:
+                raise AnalysisBroken('R12c: division by zero while evaluating the sibling guard')
+            M = 1 << 64    # std::size_t arithmetic wraps
+            f = {'+': lambda: (a + b) % M, '-': lambda: (a - b) % M, '*': lambda: (a * b) % M, '/': lambda: a // b, '%': lambda: a % b,
+                 '>>': lambda: a >> b, '<<': lambda: (a << b) % M, '&': lambda: a & b, '|': lambda: a | b, '^': lambda: a ^ b,
+                 '==': lambda: int(a == b), '!=': lambda: int(a != b), '<': lambda: int(a < b), '<=': lambda: int(a <= b),
+                 '>': lambda: int(a > b), '>=': lambda: int(a >= b)}.get(op)
+            if f is None:
+                raise AnalysisBroken('R12c: operator %s in the sibling guard is outside the evaluated fragment' % op)
+            return f()
+        raise AnalysisBroken('R12c: %s in the sibling guard is outside the evaluated fragment' % k)
+
+    cex = None
+    npts = 0
+    for size in range(2, 42):
+        for index in range(0, size - 1):
+            npts += 1
+            got = bool(ev(sib['cond'], {'index': index, 'size': size}))
+            want = (index >> 1) == ((size - 1) >> 1)
+            # only one direction is an error: the generic path is also right for siblings (their ancestors gain moved - removed and
+            # then lose moved), so a guard that takes the short-cut less often changes nothing; taking it for non-siblings leaves the
+            # removed weight in the ancestors of the hole
+            if got and not want and cex is None:
+                cex = (index, size, got)
+    ok = cex is None
+    rep.add('R12c', label(rem), 'sibling-guard', ok, rem.where(sib),
+            'the short-cut is taken only when the removed slot and the last slot share a parent (%d (index, size) pairs evaluated)' % npts if ok else
+            ('with index = %d and size = %d the short-cut is %s although slot %d and the last slot %d %s a parent: %s' %
+             (cex[0], cex[1], 'taken' if cex[2] else 'not taken', cex[0], cex[1] - 1, 'do not share' if cex[2] else 'share',
+              'the ancestors of the removed slot keep its weight, so the partial sums are stale and elements are drawn with the wrong '
+              'probability' if cex[2] else 'the generic path subtracts the removed weight along a chain that the pop loop adjusts again')))
     # non-sibling propagation
     fors = [n for n in rem.walk() if n['k'] == 'ForStmt']
     prop = [f for f in fors if any(n['k'] == 'CompoundAssignOperator' and n.get('op') == '+=' for n in rem.walk(f['body']))]
